@@ -1,25 +1,118 @@
 //! weak_memoize_fn world (C20)
 //!
+//! `memo = state.weak_memoize_fn(|k: u8| base.map(move |x| x * 10 + k))` is created at top
+//! level; the underlying function logs every invocation (key, id and weak handle of the node it
+//! made). The harness calls `memo(k)` at top level (keeping the result in a slot) and from
+//! inside bind closures (`bv_i.bind(|d| memo(d % 2))`, and the nested
+//! `bv_0.bind(|d0| bv_1.bind(|d1| memo((d0 + d1) % 2)))`) by setting the binds' variables
+//! (domain {0,1,2}: 0 -> 2 re-runs a closure with the same key), observes returned nodes and
+//! binds, drops slots, observers and the binds' own handles, changes `base`, and stabilises.
+//! Alphabet: Stabilise, CallTop(k), ObserveBind(i), SetBindVar(i,d), SetBase(d), ObserveSlot(s),
+//! DropSlot(s), DropObserver(o), DropBind(i); k in {0,1}.
+//!
+//! Reference model = who may still reference the node of key k:
+//! * surely: a harness slot or an undropped harness observer on it;
+//! * maybe: a bind whose closure returned it at its last run (whether or not that bind is still
+//!   needed), an observer on it dropped since the last stabilise;
+//! * surely not: neither of the above during one *complete* stabilise (so a reference released
+//!   in the middle of a stabilise needs one more stabilise before anything is demanded).
+//!
+//! Rules: `C20.same_node` (key surely referenced: same node, by `Incr ==` / id, and the
+//! underlying function not invoked - judged for top-level calls and for calls made by bind
+//! closures), `C20.recreated` (surely unreferenced: the function is invoked exactly once),
+//! `C20.scope` (an observer held by the harness - on a node first made inside a bind closure, or
+//! on a bind - reads `Err`, e.g. ObservingInvalid, after binds re-ran / were un-observed),
+//! `C20.value` (wrong value against from-scratch `base*10+k`), `C20.panic`.
+//! Calls with "maybe" references are not judged (the model adopts what the engine did).
+//!
+//! Families (one program each; `hx dev memo <family> <depth> [noprune] [split]`); depth =
+//! number of actions. Recommended depths (measured single-core wall, release profile):
+//!
+//! | family             | setup                               | quick pruned | thorough pruned | E1 `noprune` quick |
+//! |--------------------|-------------------------------------|--------------|-----------------|--------------------|
+//! | `memo/top`         | no bind, 3 slots, 2 observers       |  9 (2 s)     | 12              | 6 (0.6 s)          |
+//! | `memo/bind1`       | 1 bind, 2 slots, 2 observers        |  8 (11 s)    | 9 (84 s)        | 5 (0.8 s)          |
+//! | `memo/bind2`       | 2 binds, 2 slots, 1 slot observer   |  6 (6 s)     | 7 (23 s) / 8    | 5 (4.6 s)          |
+//! | `memo/nested`      | nested bind, 2 slots, 1 observer    |  7 (7 s)     | 8 (48 s)        | 5 (2.9 s)          |
+//! | `memo/nested+bind` | nested + plain bind, 1 slot, 1 obs. |  6 (9 s)     | 7 (62 s)        | 4 (0.4 s)          |
+//!
+//! The shortest history that judges `C20.scope` on a node made inside a bind closure after that
+//! bind moved on has 6 actions (ObserveBind, Stabilise, CallTop, SetBindVar, ObserveSlot,
+//! Stabilise), so depths below 6 do not witness that clause (see the `scope_judged_*` counters).
+//!
+//! The digest (engine dump + slots + observers + mirror of the memo table + model) captures the
+//! closures' hidden state: the memo table is mirrored from the underlying function's log (a dead
+//! entry and a missing entry behave alike). Use `split` (JobDef::split_first) to shard a
+//! family over workers by its first action.
+//!
 //! Entry points used by `plan.rs` (keep these four signatures).
+
+mod world;
 
 use crate::core::{Cfg, Violation};
 use crate::explore::{Marker, Stats};
 use crate::plan::{JobDef, Tier};
 use serde_json::Value as Json;
 use std::time::Instant;
+use world::{MemoProg, MemoWorld};
 
-pub fn units(_job: &JobDef, _tier: Tier) -> usize {
-    0
+fn progs(job: &JobDef, _tier: Tier) -> Vec<MemoProg> {
+    match job.family.as_str() {
+        "memo/top" => vec![MemoProg { binds: 0, nested: false, max_slots: 3, max_obs: 2 }],
+        "memo/bind1" => vec![MemoProg { binds: 1, nested: false, max_slots: 2, max_obs: 2 }],
+        "memo/bind2" => vec![MemoProg { binds: 2, nested: false, max_slots: 2, max_obs: 1 }],
+        "memo/nested" => vec![MemoProg { binds: 0, nested: true, max_slots: 2, max_obs: 1 }],
+        "memo/nested+bind" => vec![MemoProg { binds: 1, nested: true, max_slots: 1, max_obs: 1 }],
+        _ => vec![],
+    }
 }
 
-pub fn run_unit(_job: &JobDef, _job_ix: u32, _unit: usize, _tier: Tier, _deadline: Option<Instant>, _marker: &Marker, stats: &mut Stats) {
-    stats.machinery_errors.push("world not implemented".into());
+pub fn units(job: &JobDef, tier: Tier) -> usize {
+    crate::driver::units::<MemoWorld>(&progs(job, tier), job)
 }
 
-pub fn replay(_cfg: &Cfg, _prog: &Json, _history: &[Json]) -> Result<(Vec<(usize, Violation)>, Vec<String>, u64), String> {
-    Err("world not implemented".into())
+pub fn run_unit(job: &JobDef, job_ix: u32, unit: usize, tier: Tier, deadline: Option<Instant>, marker: &Marker, stats: &mut Stats) {
+    crate::driver::run_unit::<MemoWorld>(&progs(job, tier), job, job_ix, unit, deadline, marker, stats)
 }
 
-pub fn history_from_choices(_job: &JobDef, _unit: usize, _tier: Tier, _choices: &[u16]) -> Option<(Json, Vec<Json>)> {
-    None
+pub fn replay(cfg: &Cfg, prog: &Json, history: &[Json]) -> Result<(Vec<(usize, Violation)>, Vec<String>, u64), String> {
+    crate::driver::replay::<MemoWorld>(cfg, prog, history)
+}
+
+pub fn history_from_choices(job: &JobDef, unit: usize, tier: Tier, choices: &[u16]) -> Option<(Json, Vec<Json>)> {
+    crate::driver::history_from_choices::<MemoWorld>(&progs(job, tier), job, unit, choices)
+}
+
+#[cfg(test)]
+mod tests {
+    use super::*;
+    use crate::core::World;
+
+    #[test]
+    fn json_round_trip_and_replay() {
+        crate::core::install_panic_hook();
+        let cfg = Cfg { profile: crate::core::profile(), handler_order: Some(true), armed: vec![] };
+        for fam in ["memo/top", "memo/bind1", "memo/bind2", "memo/nested", "memo/nested+bind"] {
+            let job = JobDef::new("memo", fam, crate::core::profile(), 3);
+            let p = progs(&job, Tier::Quick).pop().expect("family exists");
+            let j = MemoWorld::prog_json(&p);
+            let back = MemoWorld::prog_from_json(&j).expect("prog parses");
+            assert_eq!(MemoWorld::prog_json(&back), j);
+            let mut w = MemoWorld::new(&p, &cfg);
+            let mut hist = vec![];
+            for i in 0..8 {
+                let acts = w.enabled();
+                let a = acts[(i * 5 + 1) % acts.len()].clone();
+                let aj = MemoWorld::action_json(&a);
+                assert_eq!(MemoWorld::action_from_json(&aj), Some(a.clone()));
+                hist.push(aj);
+                let vs = w.step(&a, true);
+                assert!(vs.is_empty(), "{vs:?}");
+            }
+            w.teardown();
+            let (vs, explain, _) = replay(&cfg, &j, &hist).expect("replay works");
+            assert!(vs.is_empty());
+            assert_eq!(explain.len(), hist.len());
+        }
+    }
 }
